@@ -26,9 +26,9 @@ from checks import c16
 
 SPECDIR = os.path.join(vlib.SPEC, "ProxyRelay")
 TEST = "TestVerifRelayReplay"
-ENV_ACTS = {"ClientSend", "RelaySend", "ClientCloseDc", "ClientAbort", "ClientVanish", "RelayCloseWs"}
+ENV_ACTS = {"ClientSend", "RelaySend", "ClientCloseDc", "ClientAbort", "ClientVanish", "RelayCloseWs", "ClientStallsReading", "ClientResumes"}
 END_ACTS = {"ClientCloseDc", "ClientAbort", "RelayCloseWs"}
-ALPHABET = {"conn.write.counted", "relay.accept", "client.send", "relay.send", "client.close", "client.abort", "client.vanish", "relay.close", "dc.onmsg",
+ALPHABET = {"client.stall", "client.resume", "conn.write.counted", "relay.accept", "client.send", "relay.send", "client.close", "client.abort", "client.vanish", "relay.close", "dc.onmsg",
             "relay.recv", "client.recv", "conn.write", "dc.onclose", "event.over", "relay.end", "client.sawclose", "cl.end",
             "conn.pcclose", "dh.end", "end", "diverged", "harness.note"}
 INVARIANTS = "TypeOK UpPrefix DownPrefix PcCloseOnce OverOnce SlotOnce FiguresRight ClosedBoth"
@@ -57,7 +57,7 @@ def obs_of(state_txt):
     return {"up": f("upAtRelay"), "down": f("downAtClient"), "over": f("nOver"), "ret": f("retd")}
 
 
-def to_plan(name, labels, states, seed, racy=False):
+def to_plan(name, labels, states, seed, racy=False, bulk=False):
     """TLC path (action labels, optional state texts aligned with them) -> rig plan.
     Sessions are renumbered in the order they start (the rig numbers them by their slot)."""
     rng = random.Random(seed * 7919 + zlib.crc32(name.encode()) % 1000)
@@ -132,6 +132,10 @@ def to_plan(name, labels, states, seed, racy=False):
         st = {"act": act, "args": [k]}
         if act in ("ClientSend", "RelaySend"):
             c = concrete(args[1], rng)
+            if bulk and act == "RelaySend":
+                # more than any buffer on the way holds
+                c = rng.choice([2, 3]) * 1024 * 1024 + rng.randint(1, 60000)
+                st["act"] = "RelaySendBulk"
             sent[k]["up" if act == "ClientSend" else "down"].append((args[1], c))
             st["args"].append(c)
             if act == "ClientSend" and args[0] in gate_open and args[0] in parked:
@@ -152,6 +156,8 @@ def to_plan(name, labels, states, seed, racy=False):
                     st["settle"][str(kk)] = {"up": conc_total(kk, "up", o["up"][idx]), "down": conc_total(kk, "down", o["down"][idx]),
                                              "over": o["over"][idx], "ret": o["ret"][idx]}
         steps.append(st)
+        if st["act"] == "RelaySendBulk":
+            steps.append({"act": "AwaitBulkQuiet", "args": [k]})
     for orig in list(gate_open):
         steps.append({"act": "ReleaseClEnd", "args": [ren[orig]]})
     # whatever is still open is closed by the relay; at the end every closed session must be over
@@ -211,6 +217,15 @@ RACY_GOALS = [
     ("parked-message", ["RelayCloseWs", "CopyLoopEnds", "ClientSend", "CopyUpFails", "ClientSend", "DcOnMessageStart", "ConnClose", "PipeWriteFails"]),
     ("vanish-then-relay-close", ["ClientSend", "ClientVanish", "RelaySend", "RelayCloseWs"]),
 ]
+# bulk download with a reader that does not keep up (RelaySend is made a multi-megabyte push), then one end goes away
+BULK_GOALS = [
+    ("bulk-stall-abort", ["ClientStallsReading", "RelaySend", "ClientAbort"]),
+    ("bulk-stall-closedc", ["ClientStallsReading", "RelaySend", "ClientCloseDc"]),
+    ("bulk-stall-vanish-relayclose", ["ClientStallsReading", "RelaySend", "ClientVanish", "RelayCloseWs"]),
+    ("bulk-stall-relayclose", ["ClientStallsReading", "RelaySend", "RelayCloseWs"]),
+    ("bulk-stall-resume-close", ["ClientStallsReading", "RelaySend", "ClientResumes", "ClientCloseDc"]),
+    ("bulk-flowing-abort", ["RelaySend", "ClientAbort"]),
+]
 
 
 def gen_plans(chk, quick):
@@ -223,6 +238,11 @@ def gen_plans(chk, quick):
             if steps is None:
                 raise vlib.Inconclusive("ProxyRelay vacuity: no behaviour takes %s" % goal)
             plans.append(to_plan("relay-%s%s" % (name, "-v%d" % v if v else ""), [pr.label_of(s) for s in steps], None, chk.seed + 10 * v, racy=True))
+    for name, goal in BULK_GOALS:
+        steps = g.path(["Start"] + goal, rot=chk.seed - 1)
+        if steps is None:
+            raise vlib.Inconclusive("ProxyRelay vacuity: no behaviour takes %s" % goal)
+        plans.append(to_plan("relay-" + name, [pr.label_of(s) for s in steps], None, chk.seed, racy=True, bulk=True))
     del g
     sims = simulate(chk, 40 if quick else 300, chk.seed * 100 + 7)
     sims = [s for s in sims if sum(1 for l in s[0] if l.startswith("Start")) == 2]
@@ -259,6 +279,22 @@ def validate(events, nsess, lag=False, hang=False):
     return "rejected", (un[0] if un else None), r
 
 
+def diverged_sig(ev, dv):
+    """signature of a divergence: the final settle names what is missing of getting over"""
+    act = dv[0].get("act")
+    if act == "ClientRecvSettle":
+        sess = sorted(set(e.get("s") for e in ev if e.get("ev") == "relay.accept"))
+        noslot = [s for s in sess if not any(e.get("ev") == "dh.end" and e.get("s") == s for e in ev)]
+        noover = [s for s in sess if not any(e.get("ev") == "dc.onclose" and e.get("s") == s for e in ev)]
+        kind = "slot-not-returned" if noslot else ("no-over-event" if noover else "other")
+        return "C16/relay/not-over/%s" % kind, "every end of the session(s) has gone away, but %s after %s ms: %s" % (
+            "the handler has not ended and the slot is still held (sessions %s)" % noslot if noslot else "no connection-over event was published (sessions %s)" % noover,
+            dv[0].get("t", 0) - dv[0].get("since", 0),
+            json.dumps([{k: v for k, v in e.items() if k in ("ev", "s", "n", "sent")} for e in ev if e.get("ev") in (
+                "client.stall", "client.abort", "client.close", "client.vanish", "relay.close", "dc.onclose", "cl.end", "conn.pcclose", "dh.end")][-10:]))
+    return "C16/relay/diverged/%s" % act, "the proxy never got to what step %s expects (%s)" % (act, dv[0].get("why"))
+
+
 def judge(out):
     """-> (status, signature, what): ok | skip | broken | violation | diverged"""
     ev = out.events
@@ -288,7 +324,7 @@ def judge(out):
     if verdict == "rejected":
         e = (detail or {}).get("event", {})
         if dv and e.get("t", 0) >= dv[0].get("since", 0) + c16.STALE_MS:
-            return "diverged", "C16/relay/diverged/%s" % dv[0].get("act"), "the proxy never got to what step %s expects (%s)" % (dv[0].get("act"), dv[0].get("why"))
+            return ("diverged",) + diverged_sig(ev, dv)
         if e.get("ev") == "dc.onclose":
             # which deviation explains the figures?
             v2, d2, _ = validate(ev, n, lag=True)
@@ -304,7 +340,7 @@ def judge(out):
                 [x for x in ev if x.get("ev") in ("dc.onclose", "event.over", "dh.end", "conn.pcclose")][-8:])
         return "violation", "C16/relay/trace-rejected/%s" % e.get("ev"), "recorded execution is not a behaviour of ProxyRelay: first unexplained event %s" % json.dumps(e)
     if dv:
-        return "diverged", "C16/relay/diverged/%s" % dv[0].get("act"), "the proxy never got to what step %s expects (%s)" % (dv[0].get("act"), dv[0].get("why"))
+        return ("diverged",) + diverged_sig(ev, dv)
     if not any(e.get("ev") == "end" for e in ev):
         return "broken", None, "recording has no end event: " + out.out[-600:]
     # the slots of the same execution: C16's own trace specification
@@ -344,8 +380,9 @@ def run_relay_part(chk, q):
     chk.note("ProxyRelay: %d behaviours to replay" % len(plans))
     with concurrent.futures.ThreadPoolExecutor(max_workers=2) as ex:
         mc = ex.submit(model_check, chk, quick)
-        outs = pr.run_plans(binary, TEST, plans, parallel=16, timeout=240)
-        with concurrent.futures.ThreadPoolExecutor(max_workers=8) as ex2:
+        outs = pr.run_plans(binary, TEST, plans, parallel=20, timeout=240)
+        chk.note("ProxyRelay: replays done (slowest %.0fs)" % max(o.wall for o in outs))
+        with concurrent.futures.ThreadPoolExecutor(max_workers=12) as ex2:
             verdicts = list(ex2.map(judge, outs))
         mc.result()
     summary = {"behaviours": 0, "events": 0, "sessions": 0, "bytes_up": 0, "bytes_down": 0, "skipped": 0}
